@@ -148,3 +148,7 @@ impl Period {
         self.end - self.start
     }
 }
+
+#[cfg(all(aws_s2n_quic_verif, test))]
+#[path = "/verif/harness/core/persistent_congestion.rs"]
+mod verif;
